@@ -12,7 +12,7 @@ COQ_CORR = "Corr.C10"
 GEN_DEPS = ["GenBins.v"]
 SHARD = 60
 RULE = ("a file database created from a small GFF3 hierarchy (gene, mRNA, exons with and without ID), then every sequence "
-        "of up to 3 (thorough: 4) operations over an alphabet of 12: update with three feature batches (new sub-tree with an "
+        "of up to 3 (thorough: 4) operations over an alphabet of 16: update with three feature batches (new sub-tree with an "
         "id-less exon; a duplicate key plus an id-less exon; id-less exons incl. a dangling Parent) under create_unique / "
         "merge / replace / error, update with no features, updates whose feature source raises after k items (inside and "
         "beyond the dialect-inspection window), delete by id / list / Feature, add_relation (new, duplicate, missing "
@@ -144,8 +144,8 @@ def gen_cases(rng, tier):
         for seq in itertools.product(range(len(ALPHA)), repeat=n):
             if n == depth and tier == "quick" and (sum(seq) + seq[0]) % 3:
                 continue
-            if n == depth and tier != "quick" and (sum(seq) + seq[0] + seq[-1]) % 5:
-                continue                      # every fifth depth-4 history: keeps the thorough tier near 15 minutes on an idle machine
+            if n == depth and tier != "quick" and (sum(seq) + seq[0] + seq[-1]) % 7:
+                continue                      # every seventh depth-4 history (16 operations): keeps the thorough tier near 15 minutes on an idle machine
             cases.append({"ops": [ALPHA[i] for i in seq]})
     nr = 500 if tier == "quick" else 5000
     for _ in range(nr):
